@@ -61,7 +61,8 @@ fn vv_arg(ctx: &Ctx, v: &Value) -> Result<VV, String> {
 }
 fn set_vv(ctx: &mut Ctx, e: &Value, ins: Vec<VV>, r: VV) -> Result<Value, String> {
     let (me, mo) = r.maxraw();
-    let o = json!({"ins": ins.iter().map(|v| lanes_obs(&v.split())).collect::<Vec<_>>(), "r": lanes_obs(&r.split()), "max_even": jbytes(&me.to_le_bytes()), "max_odd": jbytes(&mo.to_le_bytes()),
+    let vkind = match &r { #[cfg(feature = "simd")] VV::A(_) => "avx2", #[cfg(feature = "avx512")] VV::I(_) => "ifma", VV::Never => "" };
+    let o = json!({"vkind": vkind, "ins": ins.iter().map(|v| lanes_obs(&v.split())).collect::<Vec<_>>(), "r": lanes_obs(&r.split()), "max_even": jbytes(&me.to_le_bytes()), "max_odd": jbytes(&mo.to_le_bytes()),
                    "in_max": ins.iter().map(|v| { let (a, b) = v.maxraw(); json!([jbytes(&a.to_le_bytes()), jbytes(&b.to_le_bytes())]) }).collect::<Vec<_>>()});
     ctx.set(&out_name(e)?, Reg::Any(Rc::new(r)));
     Ok(o)
